@@ -5,6 +5,7 @@ package main
 import (
 	"encoding/json"
 	"fmt"
+	"net"
 	"os"
 	"sort"
 	"strings"
@@ -124,10 +125,17 @@ func c19Exec(cs c19Case) (string, string, string) {
 	}
 	cfg := RCfg{Name: "svc.example.com", DialogTimeout: 1200, Listens: []RListen{{Addr: "127.0.0.1", UDP: 5060, TCP: 5062, Backends: bes}}}
 	nrot := 1
-	if cs.Tail == "two-rotations" {
+	if cs.Tail == "two-rotations" || cs.Tail == "two-rotations-second-cannot-bind" {
 		// a second listens entry with the same host-name backends: its own rotation, fed by the same names
 		cfg.Listens = append(cfg.Listens, RListen{Addr: "127.0.0.1", UDP: 5070, Backends: bes})
 		nrot = 2
+	}
+	binding := nrot // rotations that can open backend sockets
+	if cs.Tail == "two-rotations-second-cannot-bind" {
+		// ... whose backend sockets cannot be opened: its backend-local-port is held by another process of the
+		// host, so every bind fails and the second rotation stays empty - which is no business of the first
+		cfg.Listens[1].BackendLocalPort = 7777
+		binding = 1
 	}
 	ref := &c19Ref{tail: cs.Tail == "static-other", cur: make([]c19Ev, cs.NHosts), set: make([][]string, cs.NHosts), fails: make([]int, cs.NHosts)}
 	for h := 0; h < cs.NHosts; h++ {
@@ -140,6 +148,11 @@ func c19Exec(cs c19Case) (string, string, string) {
 	preStart = func() {
 		for h := 0; h < cs.NHosts; h++ {
 			c19Script(h, ref.cur[h])
+		}
+		if cs.Tail == "two-rotations-second-cannot-bind" {
+			if _, err := vnet.ListenUDP("udp", &net.UDPAddr{Port: 7777}); err != nil {
+				panic("harness: " + err.Error())
+			}
 		}
 	}
 	w := StartRelayWorld(SimOpts{}, cfg)
@@ -231,7 +244,11 @@ func c19Exec(cs c19Case) (string, string, string) {
 			return "harness-rotation-count", fmt.Sprintf("%s: %d rotations exist, %d expected", desc, n, nrot)
 		}
 		for r := 0; r < nrot; r++ {
-			if cl, d := checkRot(desc, exp, r); cl != "" {
+			expR := exp
+			if r >= binding {
+				expR = nil
+			}
+			if cl, d := checkRot(desc, expR, r); cl != "" {
 				if nrot > 1 {
 					d = fmt.Sprintf("rotation of listens entry %d: %s", r+1, d)
 				}
@@ -294,14 +311,14 @@ func c19Exec(cs c19Case) (string, string, string) {
 		if cs.Proto == "udp" {
 			open := 0
 			for _, k := range vnet.UDPSockets() {
-				if strings.HasPrefix(k, "0.0.0.0:") {
+				if strings.HasPrefix(k, "0.0.0.0:") && k != "0.0.0.0:7777" { // 7777: the harness's own socket that blocks the second entry
 					open++
 				}
 			}
 			if cs.Tail == "static-other" {
 				open++ // the static tail entry is a TCP backend: no socket of its own
 			}
-			if open != len(exp)*nrot {
+			if open != len(exp)*binding {
 				return "backend-sockets-not-closed", fmt.Sprintf("%s: %d backends resolved but %d backend sockets are open", desc, len(exp), open)
 			}
 		} else {
@@ -459,6 +476,7 @@ func c19Run(c *Ctx) {
 	plans = append(plans, plan{"udp", 1, naddr, "ok", d2, "same-name"}, plan{"tcp", 1, naddr, "ok", d2 - 1, "same-name"})
 	// one host name feeding the rotations of two listens entries
 	plans = append(plans, plan{"udp", 1, naddr, "ok", d2, "two-rotations"}, plan{"tcp", 1, naddr, "fail", d2 - 1, "two-rotations"})
+	plans = append(plans, plan{"udp", 1, naddr, "ok", d2 - 1, "two-rotations-second-cannot-bind"})
 	for _, pl := range plans {
 		pl := pl
 		var evs []c19Ev
